@@ -305,6 +305,10 @@ func c45Gen(seed uint64, run int, tier string, prop string) *Case {
 	c.Cfg["sdotu"] = 1
 	c.Cfg["auth"] = int64(r.Intn(2))
 	c.Cfg["maxpend"] = int64(r.Pick(0, 2, 64))
+	if prop == "C04" && run%5 == 4 {
+		c04BatchGen(r, c, tier)
+		return c
+	}
 	nconn := r.Pick(1, 1, 2)
 	c.Cfg["nconn"] = int64(nconn)
 	n := r.Range(10, 40)
@@ -433,6 +437,10 @@ func c45Msg(op Op, tag uint16, dotu bool, msize uint32) *Msg {
 
 func c45Exec(x *Ctx) {
 	c := x.C
+	if c.cfg("batch") != 0 {
+		c04BatchExec(x)
+		return
+	}
 	prop := c.Property
 	report := func(rule, format string, a ...any) {
 		// rules a* are C04's, b* are C05's; the shared harness evaluates both
